@@ -180,10 +180,18 @@ def store_shape_agreement(ctx, prop, only=None):
         for reg in loops_of(paths):
             for p in reg.paths:
                 syms = [e.sym for e in p.effects if e.kind == 'yield' and e.value == 'self.store.get()']
-                text = ' ; '.join(e.key() for e in p.effects) + ' ; ' + p.cond_str()
+                # a synchronous take `self.store.get().value` dequeues as well
+                syms += [e.sym + '.value' for e in p.effects if e.kind == 'call' and e.target == 'self.store.get' and e.sym]
+                # putting the dequeued entry back into the same store is not a use of it as a packet
+                requeue = set(syms)
+                text = ' ; '.join(e.key() for e in p.effects
+                                  if not (e.kind == 'call' and e.target == 'self.store.put' and e.args and e.args[0] in requeue)) \
+                    + ' ; ' + p.cond_str()
                 for s in syms:
                     if (s + '.item') in text:
                         consumed.add('PriorityItem')
+                    if (s + '[') in text:
+                        consumed.add('tuple')
                     if re.search(re.escape(s) + r'\.(size|flow_id|packet_id|color)', text) or re.search(r'\(' + re.escape(s) + r'\)', text):
                         consumed.add('packet')
         n += 1
